@@ -47,6 +47,9 @@ SmallCodecsOK(e) ==
 
 Unconstrained(r, valid(_)) == r.k = "panic" \/ (r.k = "ok" /\ valid(r.v))
 
+UncheckedOK(chk, r, valid(_)) == IF chk.k = "ok" THEN r = chk ELSE Unconstrained(r, valid)
+IsIndex(w) == Lt(w, W(512))
+
 Check(e) ==
     LET op == e.op IN
     CASE op = "va_new"        -> e.res = VNew(e.a)
@@ -67,15 +70,27 @@ Check(e) ==
       [] op \in {"va_diff", "pa_diff"}      -> e.res = Diff(e.a, e.b)
       [] op = "align_up"      -> e.res = AlignUp(e.a, e.b)
       [] op = "align_down"    -> e.res = AlignDown(e.a, e.b)
+      \* alignments above 2^47: the value is only required to be canonical, but the call panics
+      \* exactly when the rounded value overflows 2^64 (never, when rounding down)
       [] op = "va_align_up"   -> IF ~IsPow2(e.b) \/ VAlignConstrained(e.b)
                                  THEN e.res = VAlignUp(e.a, e.b)
-                                 ELSE Unconstrained(e.res, Canonical)
+                                 ELSE LET r == AlignUp(e.a, e.b) IN
+                                      IF r.k # "ok" THEN e.res = r
+                                      ELSE e.res.k = "ok" /\ Canonical(e.res.v)
       [] op = "va_align_down" -> IF ~IsPow2(e.b) \/ VAlignConstrained(e.b)
                                  THEN e.res = VAlignDown(e.a, e.b)
-                                 ELSE Unconstrained(e.res, Canonical)
+                                 ELSE e.res.k = "ok" /\ Canonical(e.res.v)
       [] op = "pa_align_up"   -> e.res = PAlignUp(e.a, e.b)
       [] op = "pa_align_down" -> e.res = PAlignDown(e.a, e.b)
       [] op \in {"va_is_aligned", "pa_is_aligned"} -> e.res = IsAligned(e.a, e.b)
+      \* Step::forward / backward: the position when it exists; past the end the trait allows a panic or
+      \* any (valid) value
+      [] op = "va_step_fwd_u"  -> UncheckedOK(StepFwd(e.a, e.b), e.res, Canonical)
+      [] op = "va_step_back_u" -> UncheckedOK(StepBack(e.a, e.b), e.res, Canonical)
+      [] op = "pg_step_fwd_u"  -> UncheckedOK(PageStepFwd(e.a, e.b, e.s), e.res, Canonical)
+      [] op = "pg_step_back_u" -> UncheckedOK(PageStepBack(e.a, e.b, e.s), e.res, Canonical)
+      [] op = "idx_step_fwd_u"  -> UncheckedOK(IdxStepFwd(e.a, e.b), e.res, IsIndex)
+      [] op = "idx_step_back_u" -> UncheckedOK(IdxStepBack(e.a, e.b), e.res, IsIndex)
       [] op = "va_step_fwd"   -> e.res = StepFwd(e.a, e.b)
       [] op = "va_step_back"  -> e.res = StepBack(e.a, e.b)
       [] op = "va_steps_between" -> /\ e.res = StepsBetween(e.a, e.b)
@@ -122,6 +137,7 @@ Check(e) ==
 (* C03: whatever operation produced it, a returned address is valid *)
 AddrOps == {"va_new", "va_try_new", "va_trunc", "va_from_ptr", "va_add", "va_add_assign", "va_sub",
             "va_sub_assign", "va_align_up", "va_align_down", "va_step_fwd", "va_step_back",
+            "va_step_fwd_u", "va_step_back_u", "pg_step_fwd_u", "pg_step_back_u",
             "pg_step_fwd", "pg_step_back", "pg_add", "pg_add_assign", "pg_sub", "pg_sub_assign",
             "pg_containing", "pg_from_start", "pg_from_indices", "idt_handler_addr"}
 PhysOps == {"pa_new", "pa_try_new", "pa_trunc", "pa_add", "pa_add_assign", "pa_sub", "pa_sub_assign",
